@@ -40,13 +40,14 @@ class LogicalCall:
 
 ERR_CODES: List[int] = [2001, 2002, 1, -1, 12345, -32000, -32099, -32602, 2 ** 53 + 1]
 ERR_MESSAGES: List[str] = ['m', 'boom', 'x y z', 'é']
-EXC_KINDS: List[str] = ['value', 'key', 'type', 'assert', 'runtime', 'custom', 'lookup', 'oserror']
+EXC_KINDS: List[str] = ['value', 'key', 'type', 'assert', 'runtime', 'custom', 'lookup', 'oserror', 'validation',
+                        'badrepr']
 
 
 def logical_call(ch: Choices, tok: str, allow_fail: bool = True, allow_notification: bool = True,
                  positional_only: bool = False, zero_ok: bool = False, extra_codes: Tuple[int, ...] = (),
                  extra_messages: Tuple[str, ...] = ()) -> LogicalCall:
-    weights = [4, 2, 1, 2, 3 if allow_fail else 0, 2 if allow_fail else 0, 1, 2, 2, 1]
+    weights = [4, 2, 1, 2, 3 if allow_fail else 0, 2 if allow_fail else 0, 1, 2, 2, 1, 2]
     kind = ch.weighted(weights, 'call.kind')
     named = (not positional_only) and ch.flag(1, 3, 'call.named')
     notification = allow_notification and ch.flag(1, 4, 'call.notification')
@@ -80,6 +81,10 @@ def logical_call(ch: Choices, tok: str, allow_fail: bool = True, allow_notificat
         method, argmap = 'typed', [('tok', tok), ('n', ch.choice([1, 0, -3, 2 ** 40], 'arg.n'))]
         if ch.flag(1, 2, 'call.label'):
             argmap.append(('label', ch.choice(['a', 'b'], 'arg.label')))
+    elif kind == 10:
+        method, argmap = 'vecho', [('tok', tok)]
+        if ch.flag(2, 3, 'call.value'):
+            argmap.append(('value', json_value(ch, 1, 'arg')))
     elif kind == 9:
         method, argmap = 'typed_default', [('tok', tok)]
         if ch.flag(1, 2, 'call.flag'):
